@@ -33,6 +33,18 @@ CLAIMED["C20"] = (
     "The interleaving argument over the checked facts is on paper; callbacks supplied by the host are assumed not to "
     "touch the flag.")
 
+CLAIMED["C13"] = (
+    "who-may-construct/read rules + must-pass-through (charge before dispatch) + purity of the cost function + lossy-cast/overflow lint on the budget, over MIR",
+    "Static rule check: one FuelTracker per State (constructed only via State::new from the three render entry "
+    "points, never replaced), FuelTracker::track lies on every path from instruction fetch to dispatch inside the "
+    "interpreter loop and its Err leaves the loop, fuel_for_instruction is a pure function of the discriminant, "
+    "`remaining` is written only by track with exactly that cost, the tracker is read nowhere else, and the budget "
+    "arithmetic has no value-changing cast or overflow-capable operation.  These make the cost of a render "
+    "independent of the budget and success monotone in it for all programs and all budgets up to u64::MAX; the "
+    "numeric threshold of a particular render is not computed.",
+    "DESIGN.md §3 C13",
+    "Configuration MAX (feature fuel on).  Host callbacks cannot reach the private tracker (type privacy).")
+
 NOT_APPLICABLE = {
 }
 
